@@ -456,7 +456,7 @@ def address_shard(rec, shard):
 
 
 def main(ctx):
-    n = 480 if ctx.tier == 'quick' else 8000
+    n = 480 if ctx.tier == 'quick' else 32000
     w = 8 if ctx.tier == 'quick' else 16
     ctx.pmap('hyp_shard', [('cut', k, n // w if n >= w else 1) for k in range(w)] + [('send', k, n // 4) for k in range(2)])
     ctx.pmap('address_shard', [(h, lo, min(lo + 8192, 65536)) for h in HOSTS for lo in range(1, 65536, 8192)])
